@@ -51,6 +51,7 @@ int main(int argc, char** argv) {
 	registerKernels(cases);
 	registerData(cases);
 	registerOpt(cases);
+	registerExtra(cases);
 
 	if (argc != 2 && argc != 3) {
 		std::cerr << "usage: c18_roundtrip --list | <casefile>\n";
